@@ -60,6 +60,10 @@ class InitMethod(MethodDescriptor):
                         instance_attr_spec = instance_metadata.attrs[attr]
                         if instance_attr_spec.owner is not parent:
                             continue
+                        if not instance_attr_spec.init:
+                            # Attributes that opted out of initialization are
+                            # not arguments of the parent constructor either.
+                            continue
                         if attr in kwargs:
                             parent_kwargs[attr] = kwargs.pop(attr)
                             if not instance_attr_spec.do_not_copy:
